@@ -14,6 +14,7 @@ package main
 
 import (
 	"bytes"
+	"context"
 	"crypto/aes"
 	"crypto/cipher"
 	"crypto/sha256"
@@ -26,13 +27,17 @@ import (
 	"os"
 	"os/exec"
 	"path/filepath"
+	"runtime"
 	"sort"
 	"strconv"
 	"strings"
+	"sync"
+	"sync/atomic"
 	"time"
 
 	badger "github.com/dgraph-io/badger/v4"
 	"github.com/dgraph-io/badger/v4/options"
+	"github.com/dgraph-io/badger/v4/pb"
 	"github.com/dgraph-io/badger/v4/y"
 )
 
@@ -411,7 +416,9 @@ type sys_cryptoSess struct {
 	f23a     bool
 }
 
-func (s *sys_cryptoSess) fail(tag, msg string) { s.fails = append(s.fails, fmt.Sprintf("[%s] %s", tag, msg)) }
+func (s *sys_cryptoSess) fail(tag, msg string) {
+	s.fails = append(s.fails, fmt.Sprintf("[%s] %s", tag, msg))
+}
 
 func (s *sys_cryptoSess) opts(dir, vdir string, key []byte) badger.Options {
 	o := badger.DefaultOptions(dir).WithValueDir(vdir).WithLogger(nil).WithMemTableSize(64 << 10).
@@ -959,6 +966,552 @@ func sys_genCrypto(rng *rand.Rand, n int, st *Stats) []string {
 		rot := pick(rng, "1", "1", "10d", "1000000000")
 		ops = append(ops, fmt.Sprintf("session keylen=%d rot=%s comp=%d seed=%d nops=%d", lens[rng.Intn(3)], rot,
 			pick(rng, 0, 0, 1, 2), rng.Intn(1<<30), 120+rng.Intn(120)))
+	}
+	return ops
+}
+
+// ====================================================================================
+// Engine "pipeline" (C38): stress runs on a real DB with NumCompactors=2, a tiny memtable,
+// NumLevelZeroTablesStall 2..3 and NumMemtables 1..2 — concurrent writers, WriteBatch.Flush,
+// readers, iterators, RunValueLogGC, DropPrefix, Flatten, Subscribe/cancel — then Close with
+// writes in flight. Every public call runs under a 60 s bound; on a timeout all goroutine
+// stacks are dumped. THIS IS A TEST, NOT A PROOF (props/C38.json says so). The coarse state
+// (len(imm), len(flushChan), L0 tables, len(writeCh)) is sampled throughout and every distinct
+// sample becomes an op line that the Lean model judges with the projection of its invariant
+// (theorem C38_coarse_inv). `late-sender` replays finding F38a deterministically.
+
+func init() {
+	engines["pipeline"] = &Engine{Gen: sys_genPipeline, ExecX: sys_execPipeline}
+}
+
+// sys_callLimit: bound per public call (`-p limit=<seconds>` shortens it for mutation experiments).
+var sys_callLimit = 60 * time.Second
+
+type sys_call struct {
+	name  string
+	start time.Time
+}
+
+type sys_watchdog struct {
+	mu    sync.Mutex
+	calls map[int64]*sys_call
+	next  int64
+	fired chan string // closed-over message of the first timeout
+	once  sync.Once
+	stop  chan struct{}
+	limit time.Duration
+}
+
+func sys_newWatchdog(limit time.Duration) *sys_watchdog {
+	w := &sys_watchdog{calls: map[int64]*sys_call{}, fired: make(chan string, 1), stop: make(chan struct{}), limit: limit}
+	go func() {
+		t := time.NewTicker(250 * time.Millisecond)
+		defer t.Stop()
+		for {
+			select {
+			case <-w.stop:
+				return
+			case <-t.C:
+				w.mu.Lock()
+				var late *sys_call
+				for _, c := range w.calls {
+					if time.Since(c.start) > w.limit && (late == nil || c.start.Before(late.start)) {
+						late = c
+					}
+				}
+				w.mu.Unlock()
+				if late != nil {
+					w.once.Do(func() { w.fired <- late.name })
+				}
+			}
+		}
+	}()
+	return w
+}
+
+// do runs f as one public call under the watchdog; a panic of f is returned as text.
+func (w *sys_watchdog) do(name string, f func()) (panicked string) {
+	w.mu.Lock()
+	w.next++
+	id := w.next
+	w.calls[id] = &sys_call{name: name, start: time.Now()}
+	w.mu.Unlock()
+	defer func() {
+		if r := recover(); r != nil {
+			panicked = fmt.Sprint(r)
+		}
+		w.mu.Lock()
+		delete(w.calls, id)
+		w.mu.Unlock()
+	}()
+	f()
+	return ""
+}
+
+func sys_allStacks() string {
+	buf := make([]byte, 8<<20)
+	n := runtime.Stack(buf, true)
+	return string(buf[:n])
+}
+
+// sys_classifyHang names the known hang shapes by what the stuck goroutines are doing.
+func sys_classifyHang(call, dump string) string {
+	switch {
+	case strings.Contains(dump, "(*request).Wait"):
+		return "[F38a:late-sender] " + call + " never returned: its request entered writeCh after doWrites had exited (req.Wait blocks for ever)"
+	case strings.Contains(dump, "(*WaterMark).WaitForMark"):
+		return "[C38-timeout-readts] " + call + " did not return within the time bound: blocked in WaterMark.WaitForMark after the oracle was stopped"
+	}
+	return "[C38-timeout] " + call + " did not return within the time bound"
+}
+
+type sys_pipeCfg struct {
+	nm, stall, l0t, writers, readers, ms int
+	seed                                 int64
+}
+
+func sys_pipeOpts(dir string, c sys_pipeCfg) badger.Options {
+	return badger.DefaultOptions(dir).WithLogger(nil).WithNumCompactors(2).WithMemTableSize(32 << 10).
+		WithValueThreshold(128).WithValueLogFileSize(1 << 20).WithBaseTableSize(16 << 10).
+		WithBaseLevelSize(64 << 10).WithLevelSizeMultiplier(2).WithNumLevelZeroTables(c.l0t).
+		WithNumLevelZeroTablesStall(c.stall).WithNumMemtables(c.nm).WithBlockSize(1024).
+		WithCompression(options.None).WithBlockCacheSize(0).WithIndexCacheSize(0).
+		WithMetricsEnabled(false).WithCompactL0OnClose(false)
+}
+
+type sys_sample struct{ imm, fc, l0, wc int }
+
+func sys_stress(kv map[string]string, st *Stats) (samples []string, fails []string, out string) {
+	c := sys_pipeCfg{nm: kvInt(kv, "nm", 1), stall: kvInt(kv, "stall", 2), writers: kvInt(kv, "writers", 6),
+		readers: kvInt(kv, "readers", 2), ms: kvInt(kv, "ms", 600), seed: int64(kvInt(kv, "seed", 1))}
+	c.l0t = kvInt(kv, "l0t", c.stall-1)
+	dir := scratchDir()
+	defer os.RemoveAll(dir)
+	db, err := badger.Open(sys_pipeOpts(dir, c))
+	if err != nil {
+		return nil, nil, "err:open:" + strings.ReplaceAll(err.Error(), " ", "_")
+	}
+	wd := sys_newWatchdog(sys_callLimit)
+	defer close(wd.stop)
+	var failMu, incMu sync.Mutex
+	inc := func(k string) {
+		incMu.Lock()
+		st.Inc(k)
+		incMu.Unlock()
+	}
+	fail := func(s string) {
+		failMu.Lock()
+		fails = append(fails, s)
+		failMu.Unlock()
+	}
+	notePanic := func(call, p string) {
+		if p == "" {
+			return
+		}
+		inc("panic:" + lockFirstWords(p, 5))
+		if strings.Contains(p, "send on closed channel") {
+			fail("[F38a:late-sender] " + call + " panicked: " + p + " (the caller passed the blockWrites check before Close and sent after close(writeCh))")
+			return
+		}
+		fail("[C38-panic] " + call + " panicked: " + p)
+	}
+	var stopAll, stopAux, closing, flattening atomic.Bool
+	var apiMu sync.RWMutex
+	var wgW, wgAux sync.WaitGroup
+	key := func(r *rand.Rand) []byte {
+		return []byte(fmt.Sprintf("%c%04d", "abc"[r.Intn(3)], r.Intn(300)))
+	}
+	val := func(r *rand.Rand) []byte {
+		n := 16 + r.Intn(100)
+		if r.Intn(3) == 0 {
+			n = 150 + r.Intn(400)
+		}
+		b := make([]byte, n)
+		r.Read(b)
+		return b
+	}
+	var nCalls atomic.Int64
+	// ---- writers (stay in flight through Close)
+	for i := 0; i < c.writers; i++ {
+		wgW.Add(1)
+		go func(i int) {
+			defer wgW.Done()
+			r := rand.New(rand.NewSource(c.seed*1000 + int64(i)))
+			for !stopAll.Load() && !closing.Load() {
+				var err error
+				p := wd.do("Update", func() {
+					err = db.Update(func(t *badger.Txn) error {
+						for j := 0; j < 1+r.Intn(5); j++ {
+							if e := t.Set(key(r), val(r)); e != nil {
+								return e
+							}
+						}
+						return nil
+					})
+				})
+				nCalls.Add(1)
+				notePanic("Update", p)
+				if err != nil {
+					inc("update-err:" + lockFirstWords(err.Error(), 3))
+					time.Sleep(200 * time.Microsecond)
+				}
+				for flattening.Load() && !closing.Load() && !stopAll.Load() {
+					time.Sleep(500 * time.Microsecond)
+				}
+			}
+		}(i)
+	}
+	wgW.Add(1)
+	go func() { // WriteBatch.Flush
+		defer wgW.Done()
+		r := rand.New(rand.NewSource(c.seed*1000 + 77))
+		for !stopAll.Load() && !closing.Load() {
+			p := wd.do("WriteBatch.Flush", func() {
+				wb := db.NewWriteBatch()
+				defer wb.Cancel()
+				for j := 0; j < 20; j++ {
+					if wb.Set(key(r), val(r)) != nil {
+						return
+					}
+				}
+				if err := wb.Flush(); err != nil {
+					inc("flush-err:" + lockFirstWords(err.Error(), 3))
+					time.Sleep(200 * time.Microsecond)
+				}
+			})
+			for flattening.Load() && !closing.Load() && !stopAll.Load() {
+				time.Sleep(500 * time.Microsecond)
+			}
+			nCalls.Add(1)
+			notePanic("WriteBatch.Flush", p)
+		}
+	}()
+	aux := func(name string, pause time.Duration, f func(r *rand.Rand)) {
+		wgAux.Add(1)
+		go func() {
+			defer wgAux.Done()
+			r := rand.New(rand.NewSource(c.seed*1000 + int64(len(name))*13))
+			for !stopAll.Load() && !stopAux.Load() {
+				p := wd.do(name, func() { f(r) })
+				nCalls.Add(1)
+				notePanic(name, p)
+				if pause > 0 {
+					time.Sleep(pause)
+				}
+			}
+		}()
+	}
+	for i := 0; i < c.readers; i++ {
+		aux("View/Get", 0, func(r *rand.Rand) {
+			_ = db.View(func(t *badger.Txn) error {
+				for j := 0; j < 10; j++ {
+					if it, err := t.Get(key(r)); err == nil {
+						_, _ = it.ValueCopy(nil)
+					}
+				}
+				return nil
+			})
+		})
+		aux("View/Iterate", 0, func(r *rand.Rand) {
+			_ = db.View(func(t *badger.Txn) error {
+				o := badger.DefaultIteratorOptions
+				o.Prefix = []byte{"abc"[r.Intn(3)]}
+				o.Reverse = r.Intn(4) == 0
+				it := t.NewIterator(o)
+				defer it.Close()
+				n := 0
+				for it.Rewind(); it.Valid() && n < 200; it.Next() {
+					_, _ = it.Item().ValueCopy(nil)
+					n++
+				}
+				return nil
+			})
+		})
+	}
+	aux("RunValueLogGC", 30*time.Millisecond, func(r *rand.Rand) {
+		if err := db.RunValueLogGC(0.3); err != nil {
+			inc("gc:" + lockFirstWords(err.Error(), 3))
+		} else {
+			inc("gc:rewrote")
+		}
+	})
+	aux("DropPrefix/Flatten", 60*time.Millisecond, func(r *rand.Rand) { // serialised admin calls
+		if r.Intn(2) == 0 {
+			if err := db.DropPrefix([]byte("c")); err != nil {
+				inc("dropprefix-err:" + lockFirstWords(err.Error(), 3))
+			} else {
+				inc("dropprefix:ok")
+			}
+		} else {
+			// Flatten competes with writes by design (its documentation asks for no writes) and
+			// need not terminate under a continuous write load: the writers pause meanwhile.
+			flattening.Store(true)
+			defer flattening.Store(false)
+			if err := db.Flatten(2); err != nil {
+				inc("flatten-err:" + lockFirstWords(err.Error(), 3))
+			} else {
+				inc("flatten:ok")
+			}
+		}
+	})
+	aux("Subscribe+cancel", 5*time.Millisecond, func(r *rand.Rand) {
+		ctx, cancel := context.WithCancel(context.Background())
+		done := make(chan error, 1)
+		go func() {
+			done <- db.Subscribe(ctx, func(kvs *badger.KVList) error { return nil }, []pb.Match{{Prefix: []byte("a")}})
+		}()
+		time.Sleep(time.Duration(5+r.Intn(20)) * time.Millisecond)
+		cancel()
+		<-done // bounded by the watchdog: this whole closure is one timed call
+		inc("subscribe-cancelled")
+	})
+	// ---- sampler
+	seen := map[sys_sample]bool{}
+	var sampMu sync.Mutex
+	stopSamp := make(chan struct{})
+	sampDone := make(chan struct{})
+	stalledSeen := 0
+	go func() {
+		defer close(sampDone)
+		for {
+			select {
+			case <-stopSamp:
+				return
+			default:
+			}
+			p := badger.VerifSysPipelineSample(db)
+			// db.Levels()/db.Tables() read table indexes: only while the DB is not closing
+			var lv []badger.LevelInfo
+			apiMu.RLock()
+			if !closing.Load() {
+				lv = db.Levels()
+				_ = db.Tables()
+			}
+			apiMu.RUnlock()
+			s := sys_sample{p.Imm, p.FlushLen, p.L0, p.WriteChLen}
+			sampMu.Lock()
+			if !seen[s] && len(seen) < 400 {
+				seen[s] = true
+				samples = append(samples, fmt.Sprintf("sample nm=%d stall=%d cap=%d imm=%d fc=%d l0=%d wc=%d", p.FlushCap, p.L0Stall, p.WriteChCap, s.imm, s.fc, s.l0, s.wc))
+			}
+			if p.L0 >= p.L0Stall {
+				stalledSeen++
+			}
+			sampMu.Unlock()
+			if len(lv) > 0 && lv[0].NumTables > p.L0Stall {
+				fail(fmt.Sprintf("[C38-l0-above-stall] db.Levels() shows %d L0 tables, stall threshold %d", lv[0].NumTables, p.L0Stall))
+			}
+			time.Sleep(300 * time.Microsecond)
+		}
+	}()
+	waitOr := func(wg *sync.WaitGroup, what string) bool {
+		ch := make(chan struct{})
+		go func() { wg.Wait(); close(ch) }()
+		select {
+		case <-ch:
+			return true
+		case call := <-wd.fired:
+			dump := sys_allStacks()
+			sys_saveDump(dump)
+			fail(sys_classifyHang(call+" (while "+what+")", dump))
+			return false
+		}
+	}
+	t0 := time.Now()
+	time.Sleep(time.Duration(c.ms) * time.Millisecond)
+	// ---- phase 2: stop everything except the writers
+	stopAux.Store(true)
+	if !waitOr(&wgAux, "stopping readers, GC, admin calls and subscribers") {
+		stopAll.Store(true)
+		close(stopSamp)
+		return samples, fails, "ok"
+	}
+	t1 := time.Now()
+	// ---- phase 3: Close with writes in flight
+	apiMu.Lock()
+	closing.Store(true)
+	apiMu.Unlock()
+	var closeErr error
+	var wgC sync.WaitGroup
+	wgC.Add(1)
+	go func() {
+		defer wgC.Done()
+		p := wd.do("Close", func() { closeErr = db.Close() })
+		notePanic("Close", p)
+	}()
+	okC := waitOr(&wgC, "closing with writes in flight")
+	okW := okC && waitOr(&wgW, "waiting for the writers that were in flight during Close")
+	stopAll.Store(true)
+	close(stopSamp)
+	<-sampDone
+	if okC && closeErr != nil {
+		fail("[C38-close-error] Close returned " + closeErr.Error())
+	}
+	_ = okW
+	if os.Getenv("VERIF_TRACE") != "" {
+		fmt.Fprintf(os.Stderr, "stress phases: run+stop-aux %v, close+writers %v\n", t1.Sub(t0), time.Since(t1))
+	}
+	inc("stress-calls:" + sizeBucket(int(nCalls.Load())))
+	if stalledSeen > 0 {
+		inc("stress-saw-l0-at-stall")
+	}
+	inc(fmt.Sprintf("stress:nm=%d,stall=%d", c.nm, c.stall))
+	return samples, fails, "ok"
+}
+
+var sys_dumpN int
+
+func sys_saveDump(d string) {
+	base := os.Getenv("VERIF_SCRATCH")
+	if base == "" {
+		base = "/verif/.build/scratch"
+	}
+	sys_dumpN++
+	p := filepath.Join(filepath.Dir(base), fmt.Sprintf("goroutines-%d-%d.txt", os.Getpid(), sys_dumpN))
+	_ = os.WriteFile(p, []byte(d), 0o644)
+	fmt.Fprintln(os.Stderr, "goroutine dump written to", p)
+	if len(d) > 6000 {
+		d = d[:6000]
+	}
+	fmt.Fprintln(os.Stderr, d)
+}
+
+// sys_lateSender replays F38a: a committing caller is parked between the blockWrites check and
+// the send on writeCh (in the allocation of its request), Close runs to completion, the caller
+// is released.
+func sys_lateSender(st *Stats) (out string, fails []string) {
+	dir := scratchDir()
+	defer os.RemoveAll(dir)
+	c := sys_pipeCfg{nm: 1, stall: 2, l0t: 1}
+	db, err := badger.Open(sys_pipeOpts(dir, c))
+	if err != nil {
+		return "err:open", nil
+	}
+	if err := db.Update(func(t *badger.Txn) error { return t.Set([]byte("k0"), []byte("v0")) }); err != nil {
+		db.Close()
+		return "err:first-write", nil
+	}
+	wd := sys_newWatchdog(sys_callLimit)
+	defer close(wd.stop)
+	var res string
+	for attempt := 0; attempt < 5; attempt++ {
+		runtime.GC()
+		runtime.GC() // two cycles empty the request pool, so the next Get calls New
+		entered := make(chan struct{})
+		release := make(chan struct{})
+		restore := badger.VerifSysHoldNextRequest(entered, release)
+		done := make(chan string, 1)
+		go func() {
+			var err error
+			p := wd.do("Update (late sender)", func() {
+				err = db.Update(func(t *badger.Txn) error { return t.Set([]byte("k1"), []byte("v1")) })
+			})
+			switch {
+			case p != "":
+				done <- "panic:" + p
+			case err != nil:
+				done <- "returned:" + strings.ReplaceAll(err.Error(), " ", "_")
+			default:
+				done <- "returned:nil"
+			}
+		}()
+		select {
+		case <-entered:
+		case r := <-done: // the pool was not empty: the write went through; try again
+			restore()
+			_ = r
+			continue
+		case <-time.After(20 * time.Second):
+			restore()
+			return "err:caller-not-parked", nil
+		}
+		var closeErr error
+		closed := make(chan struct{})
+		go func() {
+			wd.do("Close", func() { closeErr = db.Close() })
+			close(closed)
+		}()
+		select {
+		case <-closed:
+		case call := <-wd.fired:
+			dump := sys_allStacks()
+			sys_saveDump(dump)
+			close(release)
+			restore()
+			return "close-hangs", []string{sys_classifyHang(call, dump)}
+		}
+		close(release)
+		select {
+		case res = <-done:
+		case call := <-wd.fired:
+			dump := sys_allStacks()
+			sys_saveDump(dump)
+			restore()
+			return "caller-hangs", []string{sys_classifyHang(call, dump)}
+		}
+		restore()
+		st.Inc("late-sender:" + lockFirstWords(res, 1))
+		closeS := "returned"
+		if closeErr != nil {
+			closeS = "error"
+		}
+		if strings.HasPrefix(res, "panic:") && strings.Contains(res, "send on closed channel") {
+			return "panic close=" + closeS + " pending=0", []string{"[F38a:late-sender] Update whose sendToWriteCh passed the blockWrites check before Close and reached `db.writeCh <- req` after Close returned: panic: send on closed channel"}
+		}
+		return res + " close=" + closeS, nil
+	}
+	db.Close()
+	return "err:pool-never-empty", nil
+}
+
+func sys_execPipeline(intents []string, st *Stats) (final, outs, oracle []string) {
+	if l, err := strconv.Atoi(params["limit"]); err == nil && l > 0 {
+		sys_callLimit = time.Duration(l) * time.Second
+	}
+	emit := func(op, out string) {
+		final = append(final, op)
+		outs = append(outs, out)
+	}
+	for _, line := range intents {
+		w := strings.Fields(line)
+		if len(w) == 0 {
+			continue
+		}
+		progress(line)
+		st.Inc("op:" + w[0])
+		switch w[0] {
+		case "stress":
+			samples, fails, out := sys_stress(kvWords(w[1:]), st)
+			emit(line, out)
+			at := len(final)
+			for _, f := range fails {
+				oracle = append(oracle, fmt.Sprintf("line %d: %s :: %s", at, line, f))
+			}
+			for _, s := range samples {
+				emit(s, "ok")
+				st.Inc("sample")
+			}
+		case "sample": // replayed sample
+			emit(line, "ok")
+		case "late-sender":
+			out, fails := sys_lateSender(st)
+			emit(line, out)
+			for _, f := range fails {
+				oracle = append(oracle, fmt.Sprintf("line %d: %s :: %s", len(final), line, f))
+			}
+		default:
+			emit(line, "bad-op")
+		}
+	}
+	return
+}
+
+func sys_genPipeline(rng *rand.Rand, n int, st *Stats) []string {
+	var ops []string
+	for i := 0; i < n; i++ {
+		stall := 2 + rng.Intn(2)
+		ops = append(ops, fmt.Sprintf("stress seed=%d nm=%d stall=%d l0t=%d writers=%d readers=2 ms=%d",
+			rng.Intn(1<<30), 1+rng.Intn(2), stall, 1+rng.Intn(stall-1), 4+rng.Intn(5), 400+rng.Intn(400)))
 	}
 	return ops
 }
